@@ -112,7 +112,10 @@ impl builtins::Command for ReadCommand {
         let ifs = context.shell.ifs().into_owned();
 
         // Convert timeout to Duration.
-        let timeout = self.timeout_in_seconds.map(Duration::from_secs_f64);
+        // N.B. A timeout too long to be represented is no timeout.
+        let timeout = self
+            .timeout_in_seconds
+            .and_then(|secs| Duration::try_from_secs_f64(secs).ok());
 
         // Perform the read operation (potentially with timeout).
         let read_result = self.read_line(input_stream, context.stderr(), timeout)?;
@@ -330,7 +333,7 @@ impl InputReader {
     ) -> Self {
         Self {
             input,
-            deadline: timeout.map(|t| Instant::now() + t),
+            deadline: timeout.and_then(|t| Instant::now().checked_add(t)),
             buffer: [0; 1],
             _term_mode: term_mode,
         }
